@@ -8,7 +8,7 @@ CONSTANTS GenDepth,     \* behaviours are printed when they reach this length (o
 
 VARIABLE hist
 
-AllD == {"D1", "D2", "D3", "D4", "D5", "D11", "D13"}
+AllD == {"D1", "D2", "D3", "D4", "D5", "D11", "D13", "D17"}
 NoFaults == {}
 AllFaults == {"connect", "handshake", "close", "upgrade"}
 SomeFaults == {"connect", "handshake", "close"}
